@@ -789,7 +789,11 @@ class State:
 
 
 def _valid_ident(s):
-    return isinstance(s, str) and s.isidentifier() and s.isascii()
+    # a name an `import` statement can spell: identifier, ASCII, not a reserved word (a module
+    # called `is` or `or` cannot be written in Python source at all: outside the domain)
+    import keyword
+
+    return isinstance(s, str) and s.isidentifier() and s.isascii() and not keyword.iskeyword(s)
 
 
 def _valid_modname(s):
